@@ -370,7 +370,10 @@ def global_rules(sm, rep, tier):
             rep.notes.append(f"{module}.{disp}: dispatch is not an if/elif chain of type tests ({str(e)[:120]}); coverage decided by interpretation per grid class")
             for c in MESH_CLASSES:
                 exc, tr = F.dispatch_probe(sm, module, disp, c)
-                rep.ob('L8', f"{module}.{disp}", exc is None, f"{c}: " + ('handled (interpreted)' if exc is None else f"raises {exc}"), fi.loc())
+                me = f"{module}.{disp}"
+                called = [t for t in (tr[tr.index(me) + 1:] if me in tr else tr) if t.startswith(module + '.') and t != me]
+                rep.ob('L8', f"{module}.{disp}", exc is None and bool(called),
+                       f"{c}: " + (f"handled by {called[0]} (interpreted)" if exc is None and called else f"raises {exc}" if exc else 'reaches no implementation of the module (returns without one)'), fi.loc())
                 rep.ob('L8f', f"{module}.{disp}/argument-forwarding", True, f"{c}: dispatch form not syntactic; forwarding of optional arguments is decided by C05.E3u/E5u", fi.loc(), nontrivial=False)
             continue
         for c in MESH_CLASSES:
